@@ -27,6 +27,7 @@ EXPLANATION = (
     " (R14) index statistics are read from the level components (.indexes), never from the lossy MultiIndex.columns; (R15) serialize_schema keys the columns mapping by the column label itself (no str(label)). " 
     "NOT decided: textual idempotence of YAML, verdict equality on "
     "probe frames, dtype string aliases resolving at run time."
+    ' (R16) every construction of a MultiIndex in the reader and MULTIINDEX_TEMPLATE supplies the options the property lists as serialisable (coerce, strict, ordered, name, unique); today none is (known findings).'
 )
 LEVEL_RULE = "one obligation per (attribute, hop) / template slot / dictionary key found in the current tree"
 FLOORS = {"R1": 90, "R2": 14, "R3": 20, "R4": 3, "R5": 5, "R6": 3, "R7": 3, "R8": 1, "R9": 1, "R10": 1, "R12": 2, "R13": 1, "R14": 1, "R15": 1}
@@ -617,6 +618,49 @@ def r15_column_keys_as_they_are(ctx):
         raise AnalysisError("serialize_schema: columns mapping comprehension not found")
 
 
+# options of a MultiIndex that the property lists as serialisable attributes (coerce, strict, ordered, names, joint uniqueness)
+A_MULTIINDEX = ("coerce", "strict", "ordered", "name", "unique")
+
+
+def r16_multiindex_rebuilt_with_its_options(ctx):
+    """Equality of the re-read schema includes the options of a MultiIndex itself (strict / coerce / ordered / name /
+    joint uniqueness of the levels), which the property lists as serialisable.  The reader and the script template are
+    the only places that construct a MultiIndex; each has to supply every such constructor option (a slot that is
+    missing re-creates the index with the default and the verdicts flip: a 3-level index fails strict=True before the
+    round trip and passes after it)."""
+    ix = ctx.ix
+    params = _init_params(ix, "pandera/api/pandas/components.py::MultiIndex")
+    for a in A_MULTIINDEX:
+        if a not in params:
+            raise AnalysisError(f"MultiIndex.__init__ has no parameter {a}")
+    io = ix.module(IO)
+    n = 0
+    for f in io.all_functions:
+        for c in calls_in(f.node):
+            if callee_last(c) == "MultiIndex" and isinstance(c.func, ast.Name):
+                n += 1
+                ctx.touched(f)
+                if any(k.arg is None for k in c.keywords):
+                    supplied = set(A_MULTIINDEX)
+                else:
+                    supplied = {k.arg for k in c.keywords} | set(list(params)[:len(c.args)])
+                missing = [a for a in A_MULTIINDEX if a not in supplied]
+                ctx.ob("R16", f, f"{f.short}: the reader re-builds a MultiIndex with its own options", not missing,
+                       "every serialisable option supplied" if not missing else
+                       f"`{txt(c)[:50]}` supplies none of {missing}: from_yaml(to_yaml(S)) / from_json(to_json(S)) re-create MultiIndex(..., strict=True / coerce=True / "
+                       "ordered=False / name=...) with the defaults, S2 != S and verdicts flip", f.loc(c))
+    tmpl = io.assigns.get("MULTIINDEX_TEMPLATE")
+    if isinstance(tmpl, ast.Constant) and isinstance(tmpl.value, str):
+        n += 1
+        slots = {fld for _, fld, _, _ in string.Formatter().parse(tmpl.value) if fld}
+        missing = [a for a in A_MULTIINDEX if a not in slots]
+        ctx.ob("R16", f"{io.path}", "MULTIINDEX_TEMPLATE has a slot for each option of the MultiIndex", not missing,
+               "every option has a slot" if not missing else
+               f"no slot for {missing}: exec(to_script(S)).schema has the default options", f"{io.path}:{tmpl.lineno}")
+    if n < 2:
+        raise AnalysisError(f"MultiIndex construction sites in the reader / script template found: {n}")
+
+
 def run(ctx):
     from ..defassign import check_modules
     check_modules(ctx, "R10", ('pandera/io/pandas_io.py', 'pandera/schema_statistics/pandas.py'), "escapes serialisation: the round trip is not even attempted")
@@ -628,6 +672,7 @@ def run(ctx):
     r13_no_hand_written_quotes(ctx)
     r14_lossless_index_source(ctx)
     r15_column_keys_as_they_are(ctx)
+    r16_multiindex_rebuilt_with_its_options(ctx)
     ix = ctx.ix
     io = ix.module(IO)
     st = ix.module(STATS)
